@@ -7,11 +7,6 @@ Open Scope Z_scope.
 
 Definition wf (w : ws) : Prop := st w = Handshake -> flag w = None.
 
-(* the background receiver has not been stopped on a socket that is still ACCEPTED
-   (see known finding C17-receive-after-stopped-receiver-assert) *)
-Definition receiver_ok (c : cfg) (w : ws) : Prop :=
-  pump w = true \/ cap c = 0%nat \/ st w <> Accepted.
-
 Ltac crush :=
   repeat (cbn in *;
           match goal with
